@@ -51,7 +51,8 @@ Keys == {<<97>>, <<98>>, <<97, 97>>, <<228>>, <<181>>}             \* a b aa ä 
 Scalars == {JNull, JBool(TRUE), JBool(FALSE), JInt(0), JInt(1), JInt(0 - 1), JInt(10),
             JFlt(<<49, 46, 48>>), JFlt(<<48, 46, 53>>),            \* 1.0  0.5
             JStr(<<>>), JStr(<<49>>), JStr(<<97>>), JStr(<<233>>), \* "" "1" "a" "é"
-            JStr(<<34>>), JStr(<<10>>), JStr(<<128512>>)}          \* "\""  "\n"  emoji (non-BMP)
+            JStr(<<34>>), JStr(<<10>>), JStr(<<128512>>),          \* "\""  "\n"  emoji (non-BMP)
+            JStr(<<127>>), JStr(<<31, 128>>), JStr(<<65535, 65536>>)} \* DEL; last C0 + first C1; last BMP + first non-BMP
 ListsOver(S, w) == UNION {[1..k -> S] : k \in 0..w}
 MapsOver(S, w)  == UNION {[K -> S] : K \in {K \in SUBSET Keys : Cardinality(K) <= w}}
 U1 == Scalars \cup {JList(s) : s \in ListsOver(Scalars, WIDTH)} \cup {JMap(f) : f \in MapsOver(Scalars, WIDTH)}
